@@ -1174,6 +1174,39 @@ def idioms(e: ast.expr) -> ast.expr:
     return _Idioms().visit(e)
 
 
+def _boolean_valued(e: ast.AST) -> bool:
+    if isinstance(e, ast.Compare):
+        return True
+    if isinstance(e, ast.UnaryOp) and isinstance(e.op, ast.Not):
+        return True
+    if isinstance(e, ast.BoolOp):
+        return all(_boolean_valued(v) for v in e.values)
+    return isinstance(e, ast.Call) and isinstance(e.func, ast.Name) and e.func.id == "bool" and len(e.args) == 1
+
+
+def two_way_tables(repo, module: str):
+    """Rewriter: `TABLE[<test>]`, TABLE a module-level dict display with exactly the keys True and False and <test> a comparison
+    (always a bool), is `TABLE[True] if <test> else TABLE[False]` - a dispatch table keyed by a test reads like the branch."""
+
+    class T(ast.NodeTransformer):
+        def visit_Subscript(self, n: ast.Subscript):
+            self.generic_visit(n)
+            if isinstance(n.value, ast.Name) and isinstance(n.ctx, ast.Load) and _boolean_valued(n.slice):
+                try:
+                    d = repo.const_expr(module, n.value.id)
+                except Exception:
+                    return n
+                if isinstance(d, ast.Dict) and len(d.keys) == 2 and all(isinstance(k, ast.Constant) and isinstance(k.value, bool) for k in d.keys) and {k.value for k in d.keys} == {True, False}:
+                    by = {k.value: v for k, v in zip(d.keys, d.values)}
+                    return ast.copy_location(ast.IfExp(test=n.slice, body=copy.deepcopy(by[True]), orelse=copy.deepcopy(by[False])), n)
+            return n
+
+    def rewrite(e: ast.expr) -> ast.expr:
+        return T().visit(e)
+
+    return rewrite
+
+
 def str_parts(e: ast.expr) -> Optional[List[str]]:
     """Text of the pieces of a string built by an f-string or by `+`: f'{a}{b}' == a + b == ''.join((a, b))."""
     if isinstance(e, ast.JoinedStr):
@@ -1806,7 +1839,8 @@ def check_cis_trans(chk, fi: FuncInfo, fold, c: Dict[str, Any]) -> None:
     if len(params) != 2:
         raise NotReadable("detect_cis_trans does not take two residues")
     ri, rj = params
-    paths = SX.Executor(rewrite=idioms, helpers=new_helpers(repo, fi)).run(fi.node.body)
+    tables = two_way_tables(repo, fi.module.name)
+    paths = SX.Executor(rewrite=lambda e: tables(idioms(e)), helpers=new_helpers(repo, fi)).run(fi.node.body)
     rets = [p for p in paths if p.exit in ("return", "fall")]
     letters_ret = {}
     stored = 0
@@ -1923,8 +1957,10 @@ def check_base_normal(chk, fi: FuncInfo) -> None:
                     return copy.deepcopy(e)
             return n
 
+    tables = two_way_tables(repo, fi.module.name)
+
     def rw(e: ast.expr) -> ast.expr:
-        return SX._simplify(_ClassConst().visit(idioms(e)))
+        return SX._simplify(_ClassConst().visit(tables(idioms(e))))
 
     paths = SX.Executor(rewrite=rw).run(fi.node.body)
     def unread(node: ast.AST) -> bool:
